@@ -42,6 +42,12 @@ import (
 //	active     DutiesCache.UpdateActiveValIndices(Idxs)
 //	mutate     overwrite every slice element / map entry / pointed-to struct of the answer call C received
 //	probe      call (seq), mutate its answer, same call again: the second answer must equal the first
+//	bufset     the owner of index buffer B rewrites it in place to Idxs (no call)
+//	bufprobe   on an epoch nothing else uses: the owner of buffer B requests Idxs through it, then reuses the
+//	           buffer. Mode "overwrite": rewrites it to Idxs2 (never requested), another caller requests
+//	           Idxs2. Mode "append": another caller requests Idxs2[0], the owner appends Idxs2[1] in place
+//	           and calls again. The beacon node must be asked for the never-requested indices and the
+//	           answers must be the beacon node's.
 type Op struct {
 	Op   string   `json:"op"`
 	C    int      `json:"c,omitempty"`
@@ -50,6 +56,11 @@ type Op struct {
 	Idxs []uint64 `json:"idxs,omitempty"`
 	Mode string   `json:"mode,omitempty"`
 	Fail bool     `json:"fail,omitempty"`
+	// B > 0: the caller passes ITS index buffer number B (one backing array with spare capacity kept across
+	// calls); the harness writes Idxs into it in place (overwriting elements, growing within capacity,
+	// re-slicing) right before the call. B == 0: a fresh slice per call.
+	B     int      `json:"b,omitempty"`
+	Idxs2 []uint64 `json:"idxs2,omitempty"`
 }
 
 // History is a script and what was observed when it ran.
@@ -348,8 +359,7 @@ func (c client) SyncCommitteeDuties(ctx context.Context, opts *eth2api.SyncCommi
 var _ eth2wrap.Client = client{}
 
 // doCall performs the cache call of cs and records its outcome in cs.
-func doCall(ctx context.Context, c *eth2wrap.DutiesCache, w *world, cs *callSt, idxs []uint64) {
-	vidxs := toIdx(idxs)
+func doCall(ctx context.Context, c *eth2wrap.DutiesCache, w *world, cs *callSt, vidxs []eth2p0.ValidatorIndex, own bool) {
 	keep := slices.Clone(vidxs)
 	var (
 		res   []duty
@@ -427,7 +437,7 @@ func doCall(ctx context.Context, c *eth2wrap.DutiesCache, w *world, cs *callSt, 
 	}
 	w.mu.Lock()
 	defer w.mu.Unlock()
-	if !slices.Equal(keep, vidxs) {
+	if own && !slices.Equal(keep, vidxs) {
 		w.errs = append(w.errs, "the caller's index slice was modified")
 	}
 	cs.done, cs.err, cs.res, cs.rmeta, cs.mutate = true, err, res, rmeta, mut
@@ -448,6 +458,23 @@ func runScript(t *testing.T, h *History) {
 		held := 0
 		nextProbe := 500
 		emit := func(s string) { h.Labels = append(h.Labels, s) }
+		// the callers' own index buffers: one backing array each (spare capacity), rewritten in place
+		const bufCap = 32
+		bufs := map[int][]eth2p0.ValidatorIndex{}
+		setBuf := func(b int, idxs []uint64) []eth2p0.ValidatorIndex {
+			buf := bufs[b]
+			if buf == nil {
+				buf = make([]eth2p0.ValidatorIndex, 0, bufCap)
+			}
+			buf = buf[:0]
+			for _, x := range idxs {
+				if len(buf) < bufCap {
+					buf = append(buf, eth2p0.ValidatorIndex(x)) // within capacity: same backing array
+				}
+			}
+			bufs[b] = buf
+			return buf
+		}
 
 		refused := func() bool { // did storeOrAmend report false since the last look at the log?
 			r := false
@@ -498,7 +525,11 @@ func runScript(t *testing.T, h *History) {
 				h.Overlap = true
 			}
 			ctx := context.WithValue(base, cidKey{}, cid)
-			go doCall(ctx, c, w, cs, op.Idxs)
+			if op.B > 0 {
+				go doCall(ctx, c, w, cs, setBuf(op.B, op.Idxs), false)
+			} else {
+				go doCall(ctx, c, w, cs, toIdx(op.Idxs), true)
+			}
 			synctest.Wait()
 			idxs := natList(op.Idxs)
 			resolved := op.Idxs
@@ -584,6 +615,61 @@ func runScript(t *testing.T, h *History) {
 				w.mu.Unlock()
 				if cs != nil && cs.done && cs.mutate != nil {
 					cs.mutate()
+				}
+			case "bufset":
+				setBuf(op.B, op.Idxs)
+			case "bufprobe":
+				if len(op.Idxs2) < 2 {
+					continue
+				}
+				sameSet := func(a, b []uint64) bool {
+					x, y := slices.Clone(a), slices.Clone(b)
+					slices.Sort(x)
+					slices.Sort(y)
+					return slices.Equal(x, y)
+				}
+				sameDuties := func(a, b []duty) bool {
+					less := func(p, q duty) int {
+						if p.V != q.V {
+							return int(p.V) - int(q.V)
+						}
+						return int(p.P) - int(q.P)
+					}
+					x, y := slices.Clone(a), slices.Clone(b)
+					slices.SortFunc(x, less)
+					slices.SortFunc(y, less)
+					return slices.Equal(x, y)
+				}
+				verdict := func(cs *callSt, content, mustAsk []uint64, what string) {
+					if !cs.done || cs.err != nil {
+						return
+					}
+					w.mu.Lock()
+					want, _ := w.answer(op.K, op.Ep, content)
+					w.mu.Unlock()
+					if !cs.entered || !sameSet(cs.req, mustAsk) {
+						h.Alias = append(h.Alias, fmt.Sprintf("request-slice/%s: %s: epoch %d request %v: the beacon node was asked for %v (asked at all: %v) instead of the never-requested %v; answer %v, beacon node's %v",
+							kindKey[op.K], what, op.Ep, content, cs.req, cs.entered, mustAsk, cs.res, want))
+					} else if !sameDuties(cs.res, want) {
+						h.Alias = append(h.Alias, fmt.Sprintf("request-slice/%s: %s: epoch %d request %v answered %v, the beacon node answers %v",
+							kindKey[op.K], what, op.Ep, content, cs.res, want))
+					}
+				}
+				own := Op{Op: "call", K: op.K, Ep: op.Ep, Idxs: op.Idxs, Mode: "seq", B: op.B}
+				start(nextProbe, own)
+				nextProbe++
+				if op.Mode == "append" {
+					start(nextProbe, Op{Op: "call", K: op.K, Ep: op.Ep, Idxs: op.Idxs2[:1], Mode: "seq"})
+					nextProbe++
+					own.Idxs = append(slices.Clone(op.Idxs), op.Idxs2[1])
+					d := start(nextProbe, own)
+					nextProbe++
+					verdict(d, own.Idxs, op.Idxs2[1:2], "after the caller appended an index to its own buffer (another caller had requested one more index in between)")
+				} else {
+					setBuf(op.B, op.Idxs2)
+					d := start(nextProbe, Op{Op: "call", K: op.K, Ep: op.Ep, Idxs: op.Idxs2, Mode: "seq"})
+					nextProbe++
+					verdict(d, op.Idxs2, op.Idxs2, "after an earlier caller overwrote its own index buffer")
 				}
 			case "probe":
 				o := op
@@ -704,6 +790,7 @@ func gen(r *rand.Rand, kind string) History {
 	var held []int
 	n := 10 + r.Intn(30)
 	reorgPending := []uint64{}
+	probeEp := uint64(0)
 	for i := 0; i < n; i++ {
 		x := r.Intn(100)
 		switch {
@@ -719,6 +806,9 @@ func gen(r *rand.Rand, kind string) History {
 			if kind == "conc" && r.Intn(2) == 0 {
 				op.Mode = []string{"entry", "release"}[r.Intn(2)]
 				held = append(held, op.C)
+			}
+			if r.Intn(3) == 0 {
+				op.B = 1 + r.Intn(2) // this caller reuses its own index buffer
 			}
 			op.Fail = r.Intn(25) == 0
 			h.Script = append(h.Script, op)
@@ -749,7 +839,21 @@ func gen(r *rand.Rand, kind string) History {
 		case x < 96 && next > 0:
 			h.Script = append(h.Script, Op{Op: "mutate", C: r.Intn(next)})
 		default:
-			if kind != "dup" {
+			switch y := r.Intn(4); {
+			case y == 0:
+				h.Script = append(h.Script, Op{Op: "bufset", B: 1 + r.Intn(2), Idxs: subset(r, h.NV)})
+			case y == 1 && kind != "dup":
+				// S1 and two further distinct indices, on an epoch nothing else touches
+				perm := r.Perm(int(h.NV))
+				n1 := 1 + r.Intn(int(h.NV)-2)
+				var s1 []uint64
+				for _, v := range perm[:n1] {
+					s1 = append(s1, uint64(v))
+				}
+				probeEp++
+				h.Script = append(h.Script, Op{Op: "bufprobe", K: pickK(), Ep: epochs[len(epochs)-1] + 1 + probeEp, Idxs: s1,
+					Idxs2: []uint64{uint64(perm[n1]), uint64(perm[n1+1])}, Mode: []string{"overwrite", "append"}[r.Intn(2)], B: 1 + r.Intn(2)})
+			case kind != "dup":
 				h.Script = append(h.Script, Op{Op: "probe", K: pickK(), Ep: pickEp(), Idxs: subset(r, h.NV)})
 			}
 		}
@@ -817,6 +921,22 @@ func corpus() []History {
 			{Op: "trim", Ep: 12},
 			{Op: "release", C: 1}, {Op: "release", C: 0},
 			{Op: "call", C: 2, K: k, Ep: 6, Idxs: all, Mode: "seq"},
+		}})
+	}
+	for k := 0; k < 3; k++ {
+		// a caller that reuses its index buffer: the cache's record of requested indices must not live in it
+		hs = append(hs, History{Kind: "corpus-reqbuf", Seed: 13, NV: 8, Active0: all, Script: []Op{
+			{Op: "call", C: 0, K: k, Ep: 2, Idxs: []uint64{1}, Mode: "seq", B: 1},
+			{Op: "bufset", B: 1, Idxs: []uint64{2}},
+			{Op: "call", C: 1, K: k, Ep: 2, Idxs: []uint64{2}, Mode: "seq"},
+			{Op: "call", C: 2, K: k, Ep: 3, Idxs: []uint64{0, 4}, Mode: "seq", B: 2},
+			{Op: "call", C: 3, K: k, Ep: 3, Idxs: []uint64{5}, Mode: "seq"},
+			{Op: "call", C: 4, K: k, Ep: 3, Idxs: []uint64{0, 4, 6}, Mode: "seq", B: 2},
+			{Op: "call", C: 5, K: k, Ep: 3, Idxs: []uint64{4, 0}, Mode: "seq", B: 2},
+			{Op: "call", C: 6, K: k, Ep: 3, Idxs: all, Mode: "seq"},
+			{Op: "bufprobe", K: k, Ep: 6, Idxs: []uint64{1, 3}, Idxs2: []uint64{2, 7}, Mode: "overwrite", B: 1},
+			{Op: "bufprobe", K: k, Ep: 7, Idxs: []uint64{1, 3}, Idxs2: []uint64{2, 7}, Mode: "append", B: 2},
+			{Op: "bufprobe", K: k, Ep: 8, Idxs: []uint64{0, 1, 2, 3, 4, 5}, Idxs2: []uint64{6, 7}, Mode: "append", B: 1},
 		}})
 	}
 	// N3 (outside the property: not an index set): a request naming an index twice on the amend path
